@@ -137,6 +137,53 @@ def run(rep, tier):
             bad = [k for k, e in conds.items() if not is_zero(e)]
             ok = not bad
             why = "the piece coefficients violate %s" % bad
+            if ok:
+                # a coefficient that is assigned only conditionally keeps its start value 0 in the other intervals: the four identities must then follow from
+                # what the skip condition states (every |X| <= eps / |X| < eps in it is read as X = 0)
+                skipped = {}
+                for k_ in ("p0", "p1", "p2", "p3"):
+                    e_ = ps[k_][0]
+                    ix = max(j_ for j_, g in enumerate(e_["guards"]) if isinstance(g[0], tuple) and g[0][0] == "loop")
+                    inner_g = e_["guards"][ix + 1:]
+                    inner_n = [nl[ix + 1:] for nl in e_.get("not", []) if len(nl) > ix + 1 and nl[:ix + 1] == e_["guards"][:ix + 1]]
+                    if inner_g or inner_n:
+                        skipped[k_] = (inner_g, inner_n)
+                if skipped:
+                    facts_ = []
+
+                    def zeros(c):
+                        if isinstance(c, tuple):
+                            if len(c) == 3 and c[0] in ("<", "<=") and isinstance(c[1], sp.Basic) and c[1].func == sp.Abs:
+                                facts_.append(c[1].args[0])
+                            for x in c[1:]:
+                                zeros(x)
+                    for g_, n_ in skipped.values():
+                        for c_, pol_, _n in g_:
+                            zeros(c_)
+                        for nl in n_:
+                            for c_, pol_, _n in nl:
+                                zeros(c_)
+                    sub_ = {}
+                    tn, yn = gsym("t", i + 1), gsym("y", i + 1)
+                    for X in facts_:
+                        for var in (tn, yn):
+                            if X.has(var) and var not in sub_:
+                                sol = sp.solve(X.xreplace(sub_), var)
+                                if len(sol) == 1:
+                                    sub_[var] = sol[0]
+                                break
+                    vals = {"p0": p0, "p1": p1, "p2": p2, "p3": p3}
+                    for k_ in skipped:
+                        vals[k_] = sp.Integer(0)
+                    c2 = {"p(h) = y_{i+1}": vals["p0"] + vals["p1"] * h + vals["p2"] * h**2 + vals["p3"] * h**3 - gsym("y", i + 1),
+                          "p'(h) = t_{i+1}": vals["p1"] + 2 * vals["p2"] * h + 3 * vals["p3"] * h**2 - gsym("t", i + 1)}
+                    bad2 = [k for k, e in c2.items() if not is_zero(sp.simplify(e.xreplace(sub_)))]
+                    if bad2:
+                        ok = False
+                        g0, n0 = next(iter(skipped.values()))
+                        why = "%s are left at zero when %s; that condition only states %s, under which %s fails (a jump at the right knot of such an interval)" % (
+                            "/".join(sorted(skipped)), " and ".join(guard_strs(fo, g0) + ["not (%s)" % " and ".join(guard_strs(fo, nl)) for nl in n0])[:200],
+                            ["%s = 0" % x for x in facts_][:3], bad2)
     rep.check(ok, "R12.3", "akima|piece", "cubic piece matches values and slopes at both ends", "AkimaSpline::Interpolate: " + why, f.loc(), sample=True)
     # inner slopes
     inner = [e for e in st.get("t", []) if any(isinstance(g[0], tuple) and g[0][0] == "loop" for g in e["guards"])]
